@@ -127,12 +127,11 @@ pub(crate) fn mk_headers(id: StreamId, eos: bool, informational: bool) -> crate:
 
 // ---------------------------------------------------------------- payloads
 
-static BACKING: [u8; 256] = [0; 256];
-
-/// A `Bytes` whose `len()` is `n` (any usize) for code that never reads payload contents: the streams
-/// receive path only calls `len()` / `is_empty()` and moves the value around.
-/// The pointer is valid for 256 bytes; harnesses must not pass the value to code that reads it.
+/// A `Bytes` whose `len()` is `n` (any usize) and whose content is unconstrained: a heap object of
+/// symbolic size that is never written (CBMC reads a fresh malloc object as nondeterministic), leaked so
+/// that `Bytes::from_static` (no ref-counting vtable) can wrap it.  Harness-only `unsafe`.
 pub(crate) fn len_only_bytes(n: usize) -> Bytes {
-    // SAFETY (harness only): see above; nothing dereferences beyond `BACKING`.
-    Bytes::from_static(unsafe { std::slice::from_raw_parts(BACKING.as_ptr(), n) })
+    let mut v: Vec<u8> = Vec::with_capacity(n);
+    unsafe { v.set_len(n) };
+    Bytes::from_static(v.leak())
 }
